@@ -119,7 +119,7 @@ def run(binp, args, timeout=120, tag=None, env=None):
         e.update(env)
     try:
         p = subprocess.run(cmd, stdout=subprocess.DEVNULL, stderr=subprocess.PIPE, timeout=timeout, env=e)
-        rc = p.returncode; err = p.stderr.decode(errors='replace')[-2000:]
+        rc = p.returncode; err = p.stderr.decode(errors='replace'); err = err[-2000:] if 'Sanitizer' not in err and 'runtime error' not in err else '\n'.join([l for l in err.split('\n') if 'Sanitizer' in l or 'runtime error' in l or l.lstrip().startswith('#')][:40])
         outcome = 'ok' if rc == 0 else ('crash(signal %d)' % -rc if rc < 0 else 'exit(%d)' % rc)
     except subprocess.TimeoutExpired as ex:
         outcome = 'timeout'; err = (ex.stderr or b'').decode(errors='replace')[-2000:]
